@@ -35,6 +35,7 @@ import (
 	record "github.com/libp2p/go-libp2p-record"
 	recpb "github.com/libp2p/go-libp2p-record/pb"
 	"github.com/libp2p/go-libp2p/core/peer"
+	"github.com/libp2p/go-libp2p/core/peerstore"
 	"github.com/libp2p/go-libp2p/p2p/host/peerstore/pstoremem"
 	ma "github.com/multiformats/go-multiaddr"
 
@@ -136,10 +137,14 @@ func vC14RecRunInBubble(t *testing.T, c *vh.Case, sc vC14RecScn, target int) *vC
 		}
 		return nil
 	}
-	ps, err := pstoremem.NewPeerstore()
+	ps0, err := pstoremem.NewPeerstore()
 	if err != nil {
 		panic(err)
 	}
+	// the peerstore is part of the boundary: AddProvider records the provider's addresses there before it writes the
+	// datastore; the call takes a millisecond of virtual time so that a Close placed on it completes while the
+	// addition is still inside
+	ps := &vC14RecPS{Peerstore: ps0, tick: func() { bd.Tick("ps", "AddAddrs"); time.Sleep(time.Millisecond) }}
 	self := vsim.PeerID("c14rec-self", 0)
 	keys := make([][]byte, 4)
 	for i := range keys {
@@ -412,6 +417,17 @@ func vC14RecCase(t *testing.T, c *vh.Case, sc vC14RecScn) {
 		sort.Strings(sigs)
 		c.Nontrivial(fmt.Sprintf("%s/%s/%d/%s", sc.Kind, sc.GC, sc.Clients, strings.Join(sigs, ",")))
 	}
+}
+
+// vC14RecPS: a peerstore whose AddAddrs is a boundary event.
+type vC14RecPS struct {
+	peerstore.Peerstore
+	tick func()
+}
+
+func (p *vC14RecPS) AddAddrs(id peer.ID, addrs []ma.Multiaddr, ttl time.Duration) {
+	p.tick()
+	p.Peerstore.AddAddrs(id, addrs, ttl)
 }
 
 func TestVerif_C14_provmgr(t *testing.T) {
